@@ -135,7 +135,18 @@ def last_run_of(steps, upto, name):
 
 
 def is_pure(body):
-    return body[1] is None and body[2] == [] and tracked_only(body[3])
+    """the computation reads state only through tracked reads: no on(..), a tracked-only result expression, and statements that only
+    create signals / memos / selectors which are themselves of that kind (a computation may own what it reads: it must still re-run
+    when its own child changes)"""
+    def creating(st):
+        if st[0] == "signal":
+            return tracked_only(st[2])
+        if st[0] == "memo":
+            return is_pure(st[2])
+        if st[0] == "selector":
+            return is_pure(st[3])
+        return False
+    return body[1] is None and all(creating(st) for st in body[2]) and tracked_only(body[3])
 
 
 def consistency_failures(prog, steps, only_steps=None):
@@ -516,6 +527,83 @@ def subscription_failures(prog, steps, effect_write_free=True):
             if deps & fired and name not in ran:
                 fails.append({"oracle": "subscriber-must-rerun", "step": k, "node": name, "subscriptions": sorted(deps),
                               "fired": sorted(fired), "known": None})
+    return fails
+
+
+def single_instance_names(prog):
+    """names that denote at most one live node at a time: declared once, on a path of top-level statements, scopes, computation
+    bodies, batch / untrack / component / if blocks only (no run_in under another owner, no cleanup callback)"""
+    count, ok = {}, set()
+
+    def walk(ss, clean):
+        for s in ss:
+            k = s[0]
+            if k in ("signal", "memo", "effect", "selector", "scope"):
+                count[s[1]] = count.get(s[1], 0) + 1
+                if clean:
+                    ok.add(s[1])
+            if k in ("memo", "effect"):
+                walk(s[2][2], clean)
+            elif k == "selector":
+                walk(s[3][2], clean)
+            elif k == "scope":
+                walk(s[2], clean)
+            elif k in ("oncleanup", "runin"):
+                walk(s[2], False)
+            elif k in ("batch", "untrack", "component"):
+                walk(s[1], clean)
+            elif k == "if":
+                walk(s[2], clean)
+                walk(s[3], clean)
+            else:
+                for a in s[1:]:
+                    if isinstance(a, list) and a and isinstance(a[0], tuple):
+                        walk(a, False)
+    walk(prog, True)
+    return {x for x in ok if count.get(x) == 1}
+
+
+def write_rerun_failures(prog, steps):
+    """C03, the 'if' direction at the position of every write (also a write made by a computation while another write is being
+    propagated): a computation whose most recent completed run read the written signal with tracking starts a new run after the
+    write, before the top-level statement returns. Only for signals declared once at top level and computations that denote one
+    node at a time; a computation that is running at the moment of the write is not required to re-run itself."""
+    comps = computations(prog)
+    single = single_instance_names(prog)
+    top_signals = {s[1] for s in prog if s[0] == "signal"} & single
+    fails = []
+    for k, st in enumerate(steps):
+        if st["snap"] is None:
+            break
+        ev = st["events"]
+        writes = [(i, int(l.split(" ")[1])) for i, l in enumerate(ev) if l.startswith("write ")]
+        if not writes:
+            continue
+        spans = run_spans(ev)
+        nodes = st["snap"]["nodes"]
+        prev = prev_nodes_of(steps, k)
+        for (p, t) in writes:
+            if t not in top_signals:
+                continue
+            for name in comps:
+                if name not in single:
+                    continue
+                n = nodes.get(name)
+                if not n or not n["alive"]:
+                    continue
+                mine = [r for r in spans if r["name"] == name]
+                if any(r["start"] < p and (r["end"] is None or r["end"] > p) for r in mine):
+                    continue                                   # running at the moment of the write
+                before = [r for r in mine if r["end"] is not None and r["end"] < p]
+                if before:
+                    r = max(before, key=lambda r: r["end"])
+                    sub = any(x == t and eff for (x, _, _, eff, _) in r["reads"]) or any(x == t and eff for (x, eff, _) in r["tracks"])
+                else:
+                    q = prev.get(name)
+                    sub = bool(q and q["alive"] and str(t) in q["deps"])
+                if sub and not any(r["start"] > p for r in mine):
+                    fails.append({"oracle": "write-reruns-subscriber", "step": k, "node": name, "written": t, "write_at_event": p,
+                                  "known": None})
     return fails
 
 
